@@ -62,14 +62,52 @@ def _cm_lock_attrs(w: ast.With, recv="self"):
     return out
 
 
+def _cm_class_lock_attrs(w: ast.With, recv="self"):
+    """`with K(self):` where K is a class of the same module whose __enter__ acquires `<stored arg>.<L>` and whose
+    __exit__ releases it: the with-statement is a region of L on `self`"""
+    out = []
+    mod = parent(w)
+    while mod is not None and not isinstance(mod, ast.Module):
+        mod = parent(mod)
+    if mod is None:
+        return out
+    for it in w.items:
+        e = it.context_expr
+        if isinstance(e, ast.Call) and isinstance(e.func, ast.Name) and len(e.args) == 1 and isinstance(e.args[0], ast.Name) and e.args[0].id == recv:
+            key = (id(mod), e.func.id)
+            if key not in _CM_CACHE:
+                attrs = []
+                for c in mod.body:
+                    if isinstance(c, ast.ClassDef) and c.name == e.func.id:
+                        ms = {m.name: m for m in c.body if isinstance(m, ast.FunctionDef)}
+                        if "__enter__" in ms and "__exit__" in ms and "__init__" in ms:
+                            # the attribute the constructor stores its argument in
+                            stored = [t.attr for n in ast.walk(ms["__init__"]) if isinstance(n, (ast.Assign, ast.AnnAssign)) for t in (n.targets if isinstance(n, ast.Assign) else [n.target])
+                                      if isinstance(t, ast.Attribute) and isinstance(n.value, ast.Name) and n.value.id in [a.arg for a in ms["__init__"].args.args[1:]]]
+                            acq = set()
+                            for n in ast.walk(ms["__enter__"]):
+                                # self.<stored>.<L>.acquire()  or  held = self.<stored>.<L>; held.acquire()
+                                if isinstance(n, ast.Attribute) and isinstance(n.value, ast.Attribute) and isinstance(n.value.value, ast.Name) and n.value.value.id == "self" and n.value.attr in stored:
+                                    acq.add(n.attr)
+                            has_acquire = any(isinstance(n, ast.Call) and isinstance(n.func, ast.Attribute) and n.func.attr == "acquire" for n in ast.walk(ms["__enter__"]))
+                            has_release = any(isinstance(n, ast.Call) and isinstance(n.func, ast.Attribute) and n.func.attr == "release" for n in ast.walk(ms["__exit__"]))
+                            if has_acquire and has_release:
+                                attrs = sorted(acq)
+                _CM_CACHE[key] = attrs
+            out.extend(_CM_CACHE[key])
+    return out
+
+
 def with_lock_attr(w: ast.With, recv="self"):
-    """lock attrs acquired by a with statement on `<recv>.<attr>` or through a lock-holding @contextmanager helper"""
+    """lock attrs acquired by a with statement on `<recv>.<attr>`, through a lock-holding @contextmanager helper, or
+    through a context-manager class constructed on `<recv>`"""
     out = []
     for it in w.items:
         e = it.context_expr
         if isinstance(e, ast.Attribute) and isinstance(e.value, ast.Name) and e.value.id == recv:
             out.append(e.attr)
     out.extend(_cm_lock_attrs(w, recv))
+    out.extend(_cm_class_lock_attrs(w, recv))
     return out
 
 
@@ -83,13 +121,21 @@ def _acquire_try_attr(t: ast.Try, lockattrs):
             if i == 0:
                 return None
             prev = b[i - 1]
-            if isinstance(prev, ast.Expr) and isinstance(prev.value, ast.Call) and isinstance(prev.value.func, ast.Attribute) and prev.value.func.attr == "acquire" \
-                    and is_self_attr(prev.value.func.value) and prev.value.func.value.attr in lockattrs:
-                attr = prev.value.func.value.attr
-                for st in t.finalbody:
-                    for c in ast.walk(st):
-                        if isinstance(c, ast.Call) and isinstance(c.func, ast.Attribute) and c.func.attr == "release" and is_self_attr(c.func.value, attr):
-                            return attr
+            if isinstance(prev, ast.Expr) and isinstance(prev.value, ast.Call) and isinstance(prev.value.func, ast.Attribute) and prev.value.func.attr == "acquire":
+                recv = prev.value.func.value
+                alias = None
+                if isinstance(recv, ast.Name):
+                    # `lock = self.L` earlier in the same block, then lock.acquire() … lock.release()
+                    for st0 in b[:i - 1]:
+                        if isinstance(st0, ast.Assign) and len(st0.targets) == 1 and isinstance(st0.targets[0], ast.Name) and st0.targets[0].id == recv.id and is_self_attr(st0.value):
+                            alias, recv = recv.id, st0.value
+                if is_self_attr(recv) and recv.attr in lockattrs:
+                    attr = recv.attr
+                    for st in t.finalbody:
+                        for c in ast.walk(st):
+                            if isinstance(c, ast.Call) and isinstance(c.func, ast.Attribute) and c.func.attr == "release" and \
+                                    (is_self_attr(c.func.value, attr) or (alias is not None and isinstance(c.func.value, ast.Name) and c.func.value.id == alias)):
+                                return attr
     return None
 
 
